@@ -19,6 +19,7 @@ import (
 	"errors"
 	"fmt"
 	"io"
+	"runtime"
 	"sort"
 	"strings"
 	"sync"
@@ -72,7 +73,8 @@ func build(cipher, n int, fk, np []byte, salt byte) *built {
 type docKey struct{ family, cipher, n int }
 
 // families: 0 = the documents under test; 1 = same file key and nonce prefix,
-// other plaintext; 2 = same file key, other nonce prefix; 3 = other file key.
+// other plaintext; 2 = same file key, other nonce prefix; 3 = other file key;
+// 4 = the all-zero file key (what a wiped key slice holds), same nonce prefix.
 var (
 	docsOnce sync.Once
 	docs     map[docKey]*built
@@ -87,6 +89,7 @@ func getDoc(family, cipher, n int) *built {
 				docs[docKey{1, c, n}] = build(c, n, fkA, npA, 0x5A)
 				docs[docKey{2, c, n}] = build(c, n, fkA, npB, 0x5A)
 				docs[docKey{3, c, n}] = build(c, n, fkC, npA, 0x5A)
+				docs[docKey{4, c, n}] = build(c, n, zeroKey, npA, 0x5A)
 			}
 		}
 	})
@@ -210,7 +213,10 @@ func forge(orig *built, variant int) []byte {
 
 // apply returns the mutated bytes (always a fresh slice) or false when the
 // mutation does not fit the bytes.
-func apply(d []byte, m Mut, orig *built) ([]byte, bool) {
+func apply(d []byte, m Mut, orig *built, lookup func(family, cipher, n int) *built) ([]byte, bool) {
+	if lookup == nil {
+		lookup = getDoc
+	}
 	l := layoutOf(d)
 	segs := segBytes(d, l)
 	var hdr []byte
@@ -288,7 +294,7 @@ func apply(d []byte, m Mut, orig *built) ([]byte, bool) {
 		}
 		return join(hdr, append(append([][]byte{}, segs...), segs[m.A])), true
 	case "splice":
-		donor := getDoc(m.C, orig.cipher, m.L)
+		donor := lookup(m.C, orig.cipher, m.L)
 		if donor == nil || !needSeg(m.A) {
 			return nil, false
 		}
@@ -302,6 +308,14 @@ func apply(d []byte, m Mut, orig *built) ([]byte, bool) {
 		return join(hdr, ns), true
 	case "forge":
 		return forge(orig, m.A), true
+	case "payload-from":
+		// the header stays, the whole payload is that of a donor document
+		donor := lookup(m.C, orig.cipher, m.L)
+		if donor == nil || l.hdr < 0 {
+			return nil, false
+		}
+		dl := layoutOf(donor.doc)
+		return append(append([]byte{}, d[:l.hdr]...), donor.doc[dl.hdr:]...), true
 	case "hdredit":
 		return headerEdit(d, m.A)
 	}
@@ -542,6 +556,15 @@ type Case struct {
 	FailAt  int    `json:"fail_at"`          // Read index at which the source starts failing; -1 = never
 	FailDat bool   `json:"fail_with_data,omitempty"`
 	FailErr string `json:"fail_err,omitempty"` // name of the error value of the fault ("" = private sentinel)
+	// Wipe: what the caller does to the slice its unwrap function returned as
+	// soon as Decrypt has returned: "" nothing, "zero" clears it, "other-key"
+	// overwrites it with another document's file key. WipeLate: it yields once
+	// (runtime.Gosched) before doing so.
+	Wipe     string `json:"caller_wipes_key,omitempty"`
+	WipeLate bool   `json:"wipe_after_yield,omitempty"`
+	// Seq: a two-document sequence (see sequence_test.go); the other fields
+	// except Cipher and Len are unused then.
+	Seq *Seq `json:"sequence,omitempty"`
 }
 
 // eofLike is an error that is not io.EOF but reports Is(io.EOF).
@@ -630,6 +653,9 @@ func judge(c *Case, orig *built, mutated []byte, expect, out []byte, err error) 
 	if c.Unwrap != "" {
 		family = "unwrap-misbehaviour"
 	}
+	if c.Wipe != "" {
+		family = "caller-wipes-key-after-Decrypt-returned"
+	}
 	if c.FailAt >= 0 {
 		family = "source-fault"
 		if !fault {
@@ -656,7 +682,26 @@ func judge(c *Case, orig *built, mutated []byte, expect, out []byte, err error) 
 func decryptWithKit(c *Case, d []byte, wfk []byte) ([]byte, error, int) {
 	src := encenv.NewSource(d)
 	src.Chunk, src.FailAt, src.FailDat, src.FailErr = c.Chunk, c.FailAt, c.FailDat, faultErrs[c.FailErr]
-	stream, err := encenv.KitDecrypt(src, v1.DecryptOptions{UnwrapKeyFn: unwrapFn(c.Unwrap, wfk)})
+	inner := unwrapFn(c.Unwrap, wfk)
+	var handed []byte
+	var after func()
+	if c.Wipe != "" {
+		after = func() {
+			if c.WipeLate {
+				runtime.Gosched()
+			}
+			if c.Wipe == "zero" {
+				clear(handed)
+			} else {
+				copy(handed, fkC)
+			}
+		}
+	}
+	stream, err := encenv.KitDecryptThen(src, v1.DecryptOptions{UnwrapKeyFn: func(w []byte, alg, name string, nonce, tag []byte) ([]byte, error) {
+		k, err := inner(w, alg, name, nonce, tag)
+		handed = k
+		return k, err
+	}}, after)
 	if err != nil {
 		return nil, err, src.Calls
 	}
@@ -693,7 +738,7 @@ func mutate(c *Case) ([]byte, *built, bool) {
 	d := orig.doc
 	for _, m := range c.Muts {
 		var ok bool
-		if d, ok = apply(d, m, orig); !ok {
+		if d, ok = apply(d, m, orig, nil); !ok {
 			return nil, orig, false
 		}
 	}
@@ -746,6 +791,15 @@ func run(r *enumx.Run, replay *enumx.ReplayCase) {
 		if err := json.Unmarshal(replay.Case, &c); err != nil {
 			panic(err)
 		}
+		if c.Seq != nil {
+			if v := runSeq(&c); v.class != "" {
+				r.Violation(v.key, fmt.Sprintf("%s: %s\ncase: %s", v.class, v.msg, c.String()), &c)
+			}
+			return
+		}
+		if c.Wipe != "" {
+			defer runtime.GOMAXPROCS(runtime.GOMAXPROCS(1))
+		}
 		d, orig, ok := mutate(&c)
 		if !ok {
 			fmt.Println("replay: the mutation does not apply")
@@ -756,7 +810,7 @@ func run(r *enumx.Run, replay *enumx.ReplayCase) {
 		}
 		return
 	}
-	r.Rule("each evaluation gives one mutated document (or one faulty source) to kit's Decrypt and reads the stream to its end; oracle: the bytes read before the first error are a prefix of the original plaintext, and the stream ends in a non-EOF error unless they are the whole plaintext; a source fault always ends in an error. Documents: reference-built, 2 ciphers x plaintext lengths {0,1,40,65536,65537,131077}. Single mutations: every bit of every byte (3 small documents) / every bit of the first, last-content and line-feed byte of each header line and of the first and last byte of each segment body and tag (large); truncation to every length (small) / within +-17 of every header-line and segment end (large); extension by 1,16,17,65552 bytes (zeros, copy of the tail); segment delete/duplicate/swap/move-last-forward/append; splice of every segment of donor documents (same key+prefix, same key other prefix, other key; all six lengths) over every segment; unwrap returning a wrong 32-byte key, a 16-byte key, nothing, an error; forged all-zero-key documents with stale or recomputed MAC; ten edits of the text header (whitespace, member order, key name, cipher id, nonce prefix, wrapped key, extra member, MAC padding bits, MAC under the zero key, CRLF). Compound: all ordered pairs over {boundary truncations, bit-flip classes, segment operations} on the two-segment document, the second mutation taken from the alphabet of the already mutated bytes. Faults: sticky non-EOF source error at every Read index, with and without data on the failing call, under default and 1-byte chunking (1-byte chunking on the large documents: quick takes the indexes within +-17 of every header-line, tag and segment boundary; thorough takes every index up to the one-full-segment document and the boundary neighbourhoods plus every 16th index of the two- and three-segment documents). A case is trivial when the mutation leaves the bytes unchanged.")
+	r.Rule("each evaluation gives one mutated document (or one faulty source) to kit's Decrypt and reads the stream to its end; oracle: the bytes read before the first error are a prefix of the original plaintext, and the stream ends in a non-EOF error unless they are the whole plaintext; a source fault always ends in an error. Documents: reference-built, 2 ciphers x plaintext lengths {0,1,40,65536,65537,131077}. Single mutations: every bit of every byte (3 small documents) / every bit of the first, last-content and line-feed byte of each header line and of the first and last byte of each segment body and tag (large); truncation to every length (small) / within +-17 of every header-line and segment end (large); extension by 1,16,17,65552 bytes (zeros, copy of the tail); segment delete/duplicate/swap/move-last-forward/append; splice of every segment of donor documents (same key+prefix, same key other prefix, other key; all six lengths) over every segment; unwrap returning a wrong 32-byte key, a 16-byte key, nothing, an error; forged all-zero-key documents with stale or recomputed MAC; ten edits of the text header (whitespace, member order, key name, cipher id, nonce prefix, wrapped key, extra member, MAC padding bits, MAC under the zero key, CRLF). Compound: all ordered pairs over {boundary truncations, bit-flip classes, segment operations} on the two-segment document, the second mutation taken from the alphabet of the already mutated bytes. Faults: sticky non-EOF source error at every Read index, with and without data on the failing call, under default and 1-byte chunking (1-byte chunking on the large documents: quick takes the indexes within +-17 of every header-line, tag and segment boundary; thorough takes every index up to the one-full-segment document and the boundary neighbourhoods plus every 16th index of the two- and three-segment documents). Caller memory: the caller zeroes / overwrites the slice its unwrap function returned right after Decrypt returns (immediately or after one yield; sequential, GOMAXPROCS(1)) on pristine documents and on genuine headers followed by payloads sealed under the zero key / the other key. Two-document sequences: every ordered pair (first Decrypt: own or attacker's document (other file key, same nonce prefix and cipher) intact, broken in each segment, truncated, segment-operated, read to the end / abandoned unread / read partially then dropped; second Decrypt: the pristine document and its tampered variants incl. the genuine header followed by the attacker's payload or segments) must be judged by the oracle, and come out, exactly as the second document run alone (each on fresh nonce prefixes, so that no state is shared by construction). A case is trivial when the mutation leaves the bytes unchanged.")
 
 	t0 := time.Now()
 	lap := func(name string) {
@@ -873,7 +927,7 @@ func run(r *enumx.Run, replay *enumx.ReplayCase) {
 						r.Incomplete("pairs: a subtree was cut by the budget")
 						return
 					}
-					d2, ok := apply(d1, m2, orig)
+					d2, ok := apply(d1, m2, orig, nil)
 					if !ok {
 						continue
 					}
@@ -891,6 +945,68 @@ func run(r *enumx.Run, replay *enumx.ReplayCase) {
 		return fmt.Sprintf("compound: %d ordered pairs (%d first mutations, both ciphers) on the two-segment document", pairCount, nFirst)
 	})
 	r.Sample(&Case{Cipher: 1, Len: 65537, Muts: []Mut{{Op: "segswap", A: 0, B: 1}, {Op: "trunc", A: 65700, Where: "inside-segment"}}, FailAt: -1})
+
+	// ---- W: caller memory. The caller zeroes (or overwrites with another
+	// document's file key) the slice its unwrap function returned, as the first
+	// thing after Decrypt has returned or after yielding once; the document is
+	// pristine, or carries - behind the genuine header - the payload (or single
+	// segments) of a document sealed under the all-zero file key / that other
+	// key with the same nonce prefix. One at a time under GOMAXPROCS(1): the
+	// goroutine Decrypt started cannot run before the caller yields, so the
+	// immediate wipe deterministically precedes everything it does (up to an
+	// asynchronous preemption within a few instructions).
+	{
+		var wcases []*Case
+		for cph := 1; cph <= 2; cph++ {
+			for _, n := range docLens {
+				nseg := len(layoutOf(getDoc(0, cph, n).doc).segs)
+				for _, wipe := range []string{"zero", "other-key"} {
+					for _, late := range []bool{false, true} {
+						mk := func(ms ...Mut) {
+							wcases = append(wcases, &Case{Cipher: cph, Len: n, Muts: ms, FailAt: -1, Wipe: wipe, WipeLate: late})
+						}
+						mk()
+						for fam := 3; fam <= 4; fam++ {
+							where := []string{"", "", "", "other-key", "zero-key"}[fam]
+							mk(Mut{Op: "payload-from", C: fam, L: n, Where: where})
+							for i := 0; i < nseg; i++ {
+								mk(Mut{Op: "splice", A: i, B: i, C: fam, L: n, Where: where})
+							}
+						}
+					}
+				}
+			}
+		}
+		prev := runtime.GOMAXPROCS(1)
+		for _, c := range wcases {
+			if d, orig, ok := mutate(c); ok {
+				check(c, orig, d)
+			}
+		}
+		runtime.GOMAXPROCS(prev)
+		r.Space(fmt.Sprintf("caller memory: %d runs = 12 documents x {zeroed, overwritten with another key} x {immediately, after one yield} x {pristine, whole payload / each segment from the zero-key and the other-key document}; sequential under GOMAXPROCS(1)", len(wcases)))
+		r.Sample(wcases[len(wcases)/2])
+		lap("caller-memory")
+	}
+
+	// ---- Q: two-document sequences (sequence_test.go)
+	{
+		seqs := enumSequences()
+		done := r.Parallel(len(seqs), func(i int) {
+			v := runSeq(seqs[i])
+			r.Count(1, 1)
+			if v.class != "" {
+				r.Violation(v.key, fmt.Sprintf("%s: %s\ncase: %s", v.class, v.msg, seqs[i].String()), seqs[i])
+			}
+		})
+		if done == len(seqs) {
+			r.Space(fmt.Sprintf("two-document sequences: %d ordered pairs (first Decrypt x second Decrypt) over the two- and three-segment documents, both ciphers; every pair and every reference run on nonce prefixes of its own", len(seqs)))
+		} else {
+			r.Incomplete(fmt.Sprintf("two-document sequences: %d of %d", done, len(seqs)))
+		}
+		r.Sample(seqs[len(seqs)/3])
+		lap("sequences")
+	}
 
 	// ---- F: source faults
 	//
